@@ -248,9 +248,11 @@ func (this *BtcTxParam) Deserialization(source *common.ZeroCopySource) error {
 	if eof {
 		return fmt.Errorf("BtcFeeRateParam deserialize length of signature array error")
 	}
-	sigs := make([][]byte, l)
+	sigs := make([][]byte, 0)
 	for i := uint64(0); i < l; i++ {
-		sigs[i], eof = source.NextVarBytes()
+		var sig []byte
+		sig, eof = source.NextVarBytes()
+		sigs = append(sigs, sig)
 		if eof {
 			return fmt.Errorf("BtcFeeRateParam deserialize no.%d signature error", i+1)
 		}
@@ -318,7 +320,7 @@ func (this *RegisterAssetParam) Deserialization(source *common.ZeroCopySource) e
 	if eof {
 		return fmt.Errorf("RegisterAssetParam deserialize length of asset map array error")
 	}
-	assetMap := make(map[uint64][]byte, l)
+	assetMap := make(map[uint64][]byte)
 	for i := uint64(0); i < l; i++ {
 		k, eof := source.NextVarUint()
 		if eof {
@@ -335,7 +337,7 @@ func (this *RegisterAssetParam) Deserialization(source *common.ZeroCopySource) e
 	if eof {
 		return fmt.Errorf("RegisterAssetParam deserialize length of lock proxy map array error")
 	}
-	lockProxyMap := make(map[uint64][]byte, l)
+	lockProxyMap := make(map[uint64][]byte)
 	for i := uint64(0); i < m; i++ {
 		k, eof := source.NextVarUint()
 		if eof {
@@ -395,7 +397,7 @@ func (this *AssetBind) Deserialization(source *common.ZeroCopySource) error {
 	if eof {
 		return fmt.Errorf("RegisterAssetParam deserialize length of asset map array error")
 	}
-	assetMap := make(map[uint64][]byte, l)
+	assetMap := make(map[uint64][]byte)
 	for i := uint64(0); i < l; i++ {
 		k, eof := source.NextVarUint()
 		if eof {
@@ -412,7 +414,7 @@ func (this *AssetBind) Deserialization(source *common.ZeroCopySource) error {
 	if eof {
 		return fmt.Errorf("RegisterAssetParam deserialize length of lock proxy map array error")
 	}
-	lockProxyMap := make(map[uint64][]byte, l)
+	lockProxyMap := make(map[uint64][]byte)
 	for i := uint64(0); i < m; i++ {
 		k, eof := source.NextVarUint()
 		if eof {
